@@ -247,6 +247,7 @@ func runC15() {
 	}
 	g := &egen{rng: rng, wrong: 20, hist: rep.Histogram}
 	var srcs []string
+	srcs = append(srcs, shapeSources()...)
 	srcs = append(srcs, "((IsPos(I) ? -7 : Add(I, 7)) in 2..8)", "Inc(I) in 1..9", "Inc(I) not in 1..9", "P?.Next?.Get(2, I16, 0)", "P?.Get(1)", "St.Next?.Get(1, 2)")
 	ints := []string{"I", "I8", "I16", "I32", "I64", "U", "U8", "U16", "U32", "U64", "1", "300", "F64", "Any"}
 	for _, a := range ints {
